@@ -524,4 +524,4 @@ are statements about all paths, hence all pattern lists, haystacks and engines a
 NOTE = """Trusted: rustc's MIR construction and the fact extractor. Anchors are def-paths: a renamed function is reported as a missing
 anchor. R13.7 is intra-procedural (see coverage.not_decided). Direct low-level use of a DFA with an already-done input is outside
 the claim."""
-TECHNIQUE = "static analysis: graph-cut / dominance queries and decision-table extraction over rustc MIR (custom rustc_private driver)"
+TECHNIQUE = "static analysis: graph-cut / dominance queries, decision-table extraction and path summaries of the DFA start-id assignment over rustc MIR (custom rustc_private driver)"
